@@ -206,7 +206,8 @@ PROPS = {
         floor={Q: 100, T: 2000},
         parallel_steps=1,
         assumptions=["each call uses its own single-thread pool so that results are comparable bit-exactly with the sequential run",
-                     "a group of threads that does not finish within the watchdog makes the run inconclusive, never a violation"],
+                     "a group of threads that does not finish within the watchdog makes the run inconclusive, never a violation",
+                     "ThreadSanitizer reports whose stacks lie inside crossbeam-epoch (rayon's deque reclamation) are suppressed through harness/tsan.supp: the tool does not model the stand-alone fences it synchronises with; any other race report is a violation"],
     ),
     "C16": dict(steps=[native("gemmcheck", ["f32"], shards=8),
                        asan("gemmcheck", ["f32"], shards=4, tiers=(T,), extra={T: {"n": 60000}}),
